@@ -18,7 +18,8 @@
 From Coq Require Import ZArith List Bool Arith.
 From CrabV Require Import Base.ZInf Scalar.Itv Scalar.ItvSound Scalar.ItvWiden Ir.Syntax Dom.ItvEnv
      Dom.ItvEnvSound Fix.Thresholds Fix.ThresholdsSound
-     Dom.ItvEnvWiden Fix.Wto Fix.Engine Fix.EngineTerm Ana.FwdItv Ana.FwdItvTerm.
+     Dom.ItvEnvWiden Fix.Wto Fix.Engine Fix.EngineTerm Ana.FwdItv Ana.FwdItvTerm
+     Ir.Cfg Dom.ItvDomain Fix.WtoThresholds Ana.FwdItvLive Ana.FwdItvFullSound.
 Import ListNotations.
 
 Theorem C05_widening_upper_bound : forall a b s, genv a s \/ genv b s -> genv (e_widen a b) s.
@@ -180,3 +181,61 @@ Print Assumptions C05_analysis_thresholds_terminates.
 Print Assumptions C05_invariant_initial.
 Print Assumptions C05_invariant_kept.
 Print Assumptions C05_analysis_terminates_example.
+
+(* --- the interval analyzer in all configurations of intra_fwd_analyzer (Ana/FwdItvLive.v):
+   thresholds collected by the mirror of wto_thresholds, liveness pruning.  Add to the imports:
+     Ir.Cfg Fix.WtoThresholds Ana.FwdItvLive Ana.FwdItvFullSound.
+   No hypothesis about the thresholds: C05_wto_thresholds_well_formed. ---------------------- *)
+(* every threshold set that the mirror of wto_thresholds hands to extrapolate has the shape
+   -oo :: finite ... ++ [+oo], whatever the program, the ordering and max_thresholds *)
+Theorem C05_wto_thresholds_well_formed : forall size blk preds w h,
+  wf_thr (wto_thr size blk preds w h).
+Proof. exact wto_thr_wf. Qed.
+Theorem C05_analysis_full_terminates : forall p w entry delay desc maxthr live ex use_asm asm init,
+  env_ok init -> (forall n a, use_asm = true -> asm n = Some a -> env_ok a) ->
+  exists fuel e, fwd_run_full p w entry delay desc maxthr live ex use_asm asm fuel init = Some e.
+Proof. exact fwd_run_full_terminates. Qed.
+Theorem C05_analysis_full_fuel_monotone :
+  forall p w entry delay desc maxthr live ex use_asm asm init fuel fuel' e,
+  fwd_run_full p w entry delay desc maxthr live ex use_asm asm fuel init = Some e -> fuel <= fuel' ->
+  fwd_run_full p w entry delay desc maxthr live ex use_asm asm fuel' init = Some e.
+Proof. exact fwd_run_full_fuel_mono. Qed.
+Theorem C05_analysis_full_answer_independent_of_fuel :
+  forall p w entry delay desc maxthr live ex use_asm asm init f1 f2 e1 e2,
+  fwd_run_full p w entry delay desc maxthr live ex use_asm asm f1 init = Some e1 ->
+  fwd_run_full p w entry delay desc maxthr live ex use_asm asm f2 init = Some e2 -> e1 = e2.
+Proof. exact fwd_run_full_deterministic. Qed.
+(* any per-head thresholds of the shape kept by thresholds::add, any per-block dead sets *)
+Theorem C05_analysis_any_thresholds_any_dead_sets_terminates :
+  forall use_thr t dead p w entry delay desc use_asm asm init,
+  (use_thr = true -> forall h, wf_thr (t h)) ->
+  env_ok init -> (forall n a, use_asm = true -> asm n = Some a -> env_ok a) ->
+  exists fuel e, fwd_run_gen use_thr t dead p w entry delay desc use_asm asm fuel init = Some e.
+Proof. exact fwd_run_gen_terminates. Qed.
+Theorem C05_invariant_kept_full : forall p w entry delay desc maxthr live ex use_asm asm init fuel e,
+  env_ok init -> (forall n a, use_asm = true -> asm n = Some a -> env_ok a) ->
+  fwd_run_full p w entry delay desc maxthr live ex use_asm asm fuel init = Some e ->
+  forall n, env_ok (e_pre env e n) /\ env_ok (e_post env e n).
+Proof. exact fwd_run_full_ok. Qed.
+(* the thresholds of a counting loop: 10 = 9 + 1 from `assume i <= 9` inside the cycle; with
+   max_thresholds = 3 the initial set is already full; b3 is not a cycle head *)
+Example C05_wto_thresholds_example :
+  let i := 0%N in
+  let blk := fun n => nth n [ [SAssign i (mkLE [] 0)];
+                             [];
+                             [SAssume (mkLC INEQ (mkLE [(1%Z, i)] (-9))); SArith OpAdd i i (OCst 1)];
+                             [SAssume (mkLC INEQ (mkLE [((-1)%Z, i)] 10))] ] [] in
+  let preds := fun n => match n with 1 => [0; 2] | 2 => [1] | 3 => [1] | _ => [] end in
+  let w := [Vertex 0; Cycle 1 [Vertex 2]; Vertex 3] in
+  wto_thr 10 blk preds w 1 = [MInf; Fin 0; Fin 10; PInf] /\
+  wto_thr 3 blk preds w 1 = [MInf; Fin 0; PInf] /\
+  wto_thr 10 blk preds w 3 = thr_init.
+Proof. exact wto_thr_example. Qed.
+
+Print Assumptions C05_wto_thresholds_well_formed.
+Print Assumptions C05_analysis_full_terminates.
+Print Assumptions C05_analysis_full_fuel_monotone.
+Print Assumptions C05_analysis_full_answer_independent_of_fuel.
+Print Assumptions C05_analysis_any_thresholds_any_dead_sets_terminates.
+Print Assumptions C05_invariant_kept_full.
+Print Assumptions C05_wto_thresholds_example.
